@@ -29,8 +29,8 @@ ASSUMPTIONS = [
     "the voxel corners (global_corners_voxels) are the authoritative advertisement; physical corners must be their image under the base coordinate system",
 ]
 FLOORS = {
-    "quick": {"assemble_equals_base": 1500, "interiors_partition": 1500, "patch_is_advertised_subimage": 12000, "corners_voxel_vs_physical": 12000},
-    "thorough": {"assemble_equals_base": 15000, "interiors_partition": 15000, "patch_is_advertised_subimage": 100000, "corners_voxel_vs_physical": 50000},
+    "quick": {"patched_again_after_move": 400, "assemble_equals_base": 1500, "interiors_partition": 1500, "patch_is_advertised_subimage": 12000, "corners_voxel_vs_physical": 12000},
+    "thorough": {"patched_again_after_move": 4000, "assemble_equals_base": 15000, "interiors_partition": 15000, "patch_is_advertised_subimage": 100000, "corners_voxel_vs_physical": 50000},
 }
 OVERLAPS = [0.0, 0.1, 0.25, 0.5]
 
@@ -212,6 +212,18 @@ def _one(R, darsia, rng, cur, shape, cnt, ov, case_no):
                     return
                 R.guarded("assemble", lambda: P.assemble())
             R.check(np.array_equal(base.img, arr), "base_unchanged", dict(cur))
+            if case_no % 3 == 1:
+                # history on the base image: it is moved in place (same shape and dimensions) and patched again,
+                # the construction contract judges the second object as well
+                new_origin = [float(rng.uniform(-5, 5) * dims[1]), float(rng.uniform(-5, 5) * dims[0])]
+                base.update_metadata(origin=darsia.Coordinate(np.array(new_origin)))
+                cnt2 = cnt
+                cur.update({"origin": new_origin, "counts": list(cnt2), "history": "patched, moved in place, patched again"})
+                with contextlib.redirect_stdout(io.StringIO()):
+                    ok, P2 = R.guarded("patches_constructible", lambda: darsia.Patches(base, list(cnt2), rel_overlap=ov))
+                    if ok:
+                        R.guarded("assemble", lambda: P2.assemble())
+                        R.count("patched_again_after_move")
             R.sig([list(shape), list(cnt), ov, payload, geom], nontrivial=cnt != (1, 1), cls=f"overlap={ov}/{payload}/geom{geom}/{'div' if shape[0] % cnt[0] == 0 and shape[1] % cnt[1] == 0 else 'nondiv'}")
             if case_no <= 2:
                 R.sample(dict(cur))
